@@ -30,7 +30,7 @@ with ThreadPoolExecutor(14) as p:
         if res['status'] != 'ok': print('   ', res.get('reason'))
         fails = [o for o in fails if not (o['desc'] or '').startswith('[CANARY]')]
         for o in fails[:int(os.environ.get('NF','14'))]:
-            print('   FAIL %s | %s | %s:%s %s' % (o['id'], o['desc'], os.path.basename(o['file'] or ''), o['line'], o['kind']))
+            print('   %s %s | %s | %s:%s %s' % ('FAIL' if o['status'] == 'FAILURE' else o['status'], o['id'], o['desc'], os.path.basename(o['file'] or ''), o['line'], o['kind']))
             if trace and 'trace' in o:
                 ent = res.get('entry')
                 for st in o['trace']:
